@@ -1,6 +1,9 @@
 import Sgz.Model.Version
+import Sgz.Model.Container
+import Sgz.Proofs.Layout
+import Mathlib.Tactic.Ring
 /-!
-# C03 — container conformance: the version word
+# C03 — container conformance: the version word, section sizes and footer offsets
 
 The recorded format version is the writing library's version under an encoding that is a bijection and preserves
 release order, so that a reader applies the conventions of the version that wrote the file.
@@ -71,5 +74,68 @@ example : parse "100.23.9rc2" = some ⟨100, 23, 9, true⟩ := by decide
 example : parse "0.2.10.dev3+g1a2b3c4.d20240101" = some ⟨0, 2, 10, true⟩ := by decide
 example : parse "0.2.9+d20240101" = some ⟨0, 2, 9, true⟩ := by decide
 example : parse "0.1.dev1+g45bcf9689" = some ⟨0, 1, 0, true⟩ := by decide
+
+
+/-! ### section sizes and footer offsets -/
+open Container Geo
+
+/-- one block is 4096 bytes and the data section is exactly the stated number of blocks: with `u = 2q` bytes per unit
+(3D, `q = 4·rate`) the header's block count is the number of blocks of the padded block grid, with **no remainder** at
+any of the three divisions -/
+theorem disk_blocks_exact (g : Geo) (hg : g.Valid) (q : Nat) (hu : g.u = 2 * q) :
+    diskBlocks g q = g.NB0 * g.NB1 * g.NB2 ∧ q * g.P2 * g.P1 * g.P0 = 4 * 8 * 4096 * (g.NB0 * g.NB1 * g.NB2) := by
+  have hc := cpb_u hg
+  unfold Geo.cpb at hc
+  obtain ⟨a, ha⟩ := dvd0 hg
+  obtain ⟨b, hb⟩ := dvd1 hg
+  obtain ⟨c, hc'⟩ := dvd2 hg
+  have e0 := P0_eq hg
+  have e1 := P1_eq hg
+  have e2 := P2_eq hg
+  rw [ha, hb, hc', Nat.mul_div_cancel_left _ (by decide : 0 < 4), Nat.mul_div_cancel_left _ (by decide : 0 < 4),
+    Nat.mul_div_cancel_left _ (by decide : 0 < 4), hu] at hc
+  have key : q * g.P2 * g.P1 * g.P0 = 4 * 8 * 4096 * (g.NB0 * g.NB1 * g.NB2) := by
+    rw [e0, e1, e2, ha, hb, hc']
+    calc q * (g.NB2 * (4 * c)) * (g.NB1 * (4 * b)) * (g.NB0 * (4 * a))
+        = 32 * (a * b * c * (2 * q)) * (g.NB0 * g.NB1 * g.NB2) := by ring
+      _ = 4 * 8 * 4096 * (g.NB0 * g.NB1 * g.NB2) := by rw [hc]
+  refine ⟨?_, key⟩
+  unfold diskBlocks
+  rw [key]
+  generalize g.NB0 * g.NB1 * g.NB2 = N
+  omega
+
+theorem footerArrayBytes_eq_pad (len : Nat) : footerArrayBytes len = pad len 512 := by
+  unfold footerArrayBytes pad
+  by_cases h : len % 512 = 0
+  · simp [h]
+  · simp only [h, if_false]
+    have := Nat.div_add_mod len 512
+    have := Nat.mod_lt len (by decide : 0 < 512)
+    omega
+
+/-- the footer holds each array at the offset a reader of the file's own version derives — for files stamped after
+release 0.2.1 (every file today's writers produce) -/
+theorem footer_offsets_agree (version nHB d len k : Nat) (hv : paddedFooter version = true) :
+    writerFooterOffset nHB d len k = readerFooterOffset version nHB d len k := by
+  unfold writerFooterOffset readerFooterOffset
+  rw [hv, footerArrayBytes_eq_pad]; simp
+
+/-- an array whose length is already a multiple of 512 gets no padding (a pad of `512 − len % 512` would add a page) -/
+theorem no_extra_page (len : Nat) (h : len % 512 = 0) : footerArrayBytes len = len := by
+  unfold footerArrayBytes; simp [h]
+
+theorem file_length_is_sum (nHB d len n : Nat) :
+    fileLength nHB d len n = writerFooterOffset nHB d len n ∧
+    (∀ k, k < n → writerFooterOffset nHB d len k + footerArrayBytes len ≤ fileLength nHB d len n) := by
+  refine ⟨rfl, ?_⟩
+  intro k hk
+  unfold writerFooterOffset fileLength
+  have : (k + 1) * footerArrayBytes len ≤ n * footerArrayBytes len := Nat.mul_le_mul_right _ hk
+  rw [Nat.add_mul, Nat.one_mul] at this
+  omega
+
+example : (⟨5, 6, 300, 4, 4, 256, 64⟩ : Geo).Valid ∧ diskBlocks ⟨5, 6, 300, 4, 4, 256, 64⟩ 32 = 2 * 2 * 2 := by decide
+example : footerArrayBytes 512 = 512 ∧ footerArrayBytes 100 = 512 ∧ footerArrayBytes 513 = 1024 := by decide
 
 end Sgz.Props.C03
